@@ -545,6 +545,72 @@ def r2_recency(run):
         flag = item.elts[2]
         run.check(isinstance(flag, ast.Constant) and flag.value is (which == SINKS), 'entries of %s carry is_sink == %s' % (which, which == SINKS), f, call,
                   runtime_witness='a static route called with regex groups / a sink called without its named groups')
+    _registration_always_inserts(run, t)
+
+
+REGISTRARS = (('add_sink', SINKS), ('add_static_route', STATICS))
+
+
+def _registration_always_inserts(run, t: 'Tables'):
+    """Every NORMAL return of the public registration functions
+    (`App.add_sink`, `App.add_static_route`, and any override in a subclass)
+    has passed through the insertion of the new entry into its list - directly
+    or through a callee all of whose normal paths insert (must-pass-through on
+    the CFG from entry to the normal exit).  A registration that is skipped
+    because of what the list already holds (duplicate suppression, "already
+    registered" shortcuts) leaves the re-registered entry at its OLD rank, so it
+    is not the most recently added matching one.
+    W: add_static_route('/a', d1); add_static_route('/a/b', d2);
+    add_static_route('/a', d1); GET /a/b/x.txt is still served from d2."""
+    p = t.p
+    memo: Dict[Tuple[str, str], Optional[bool]] = {}
+
+    def ins_nodes(f: Func, which: str, stack: Tuple[str, ...]):
+        cfg = cfg_of(f, p)
+        run.use_cfg(cfg)
+        direct = [call for (w, _pol, g, call) in t.insertions if g is f and w == which]
+        out = set()
+        for n in cfg.live_nodes():
+            if any(n.ast is c or any(x is c for x in n.walk()) for c in direct):
+                out.add(n.id)
+                continue
+            for c in n.calls():
+                g = p.callee(f, c)
+                if isinstance(g, Func) and g is not f and g.qual not in stack and always(g, which, stack + (f.qual,)):
+                    out.add(n.id)
+                    break
+        return cfg, out
+
+    def always(g: Func, which: str, stack: Tuple[str, ...]) -> bool:
+        key = (g.qual, which)
+        if key not in memo:
+            memo[key] = False       # (recursion: a cycle does not insert by itself)
+            cfg, ins = ins_nodes(g, which, stack)
+            memo[key] = bool(ins) and flow.find_path(cfg, [cfg.entry], [cfg.exit], avoid_nodes=ins) is None
+        return bool(memo[key])
+
+    for (name, which) in REGISTRARS:
+        base = p.func('%s.%s' % (APP, name))
+        funcs = [base] + [p.classes[cq].methods[name] for cq in sorted(p.subclasses(APP))
+                          if cq != APP and name in p.classes[cq].methods]
+        for f in funcs:
+            cfg, ins = ins_nodes(f, which, ())
+            if not ins:
+                raise UnknownIdiom('%s neither inserts into %s nor calls a function that always does' % (f.qual, which))
+            path = flow.find_path(cfg, [cfg.entry], [cfg.exit], avoid_nodes=ins)
+            cons = '%s: every normal return has inserted the entry' % name
+            if path:
+                tests = [i for i in path if cfg.node(i).kind == 'test']
+                last = cfg.node(path[-2]) if len(path) > 1 else None
+                if tests:
+                    cons = cfg.node(tests[-1]).ast
+                elif last is not None and last.kind == 'stmt' and isinstance(last.ast, ast.Return):
+                    cons = last.ast
+            run.check(path is None, 'every normal return of %s() has inserted the new entry into %s (no early return or skip that depends on '
+                      'what is already registered): a re-registration moves to the head' % (name, which), f, cons, where=f.loc(),
+                      witness=flow.describe_path(cfg, path) if path else None,
+                      runtime_witness="add_static_route('/a', d1); add_static_route('/a/b', d2); add_static_route('/a', d1): GET /a/b/x.txt is "
+                                      'still served from d2 (the repeated registration kept its old rank)')
 
 
 def r3_refresh(run):
@@ -1201,6 +1267,259 @@ def r7_static_prefix(run):
             ok = n.id in after_norm and norm_id not in flow.reachable(cfg, [n.id], avoid_nodes=[])  # no path back to the test
             run.check(ok, 'self.%s, read by StaticRoute.match(), is bound from the prefix after its trailing-slash normalisation' % a, init, n.ast,
                       runtime_witness="add_static_route('/s/', dir, fallback_filename='index.html'); GET /s is not matched (an older sink answers, or 404)")
+    _match_decides_on_raw_path(run, init, match, pparam, {a: [(n, n.id in after_norm) for n in stored[a]] for a in used})
+
+
+# --- StaticRoute.match() evaluated over a finite domain of request paths -----
+
+MATCH_FALLBACK_ATTR = '_fallback_filename'
+# registered spelling -> normalised prefix (the constructor appends the missing '/')
+MATCH_PREFIXES = (('/static', '/static/'), ('/static/', '/static/'), ('/', '/'))
+# Raw request paths: textually under / not under the prefix, and spellings that
+# only a NORMALISING reading (dot segments, repeated slashes, case, blanks)
+# would put under it.
+MATCH_PATHS = ('/static', '/static/', '/staticfoo', '/static/foo', '/static/a/b.txt', '/static//a', '/static/./a', '/static/..', '/static/../x',
+               '/./static/a.txt', '/./static', '///static/a.txt', '//static/a.txt', '//static', '/x/../static/a', '/x/static/a', 'static/a',
+               '/STATIC/a.txt', '/Static', ' /static/a', '/static ', '/static/ ', '/stati', '/statics/', '/', '', '//', '/.', '/x', 'x', '/static\n')
+_STR_METHODS = {'startswith', 'endswith', 'strip', 'lstrip', 'rstrip', 'lower', 'upper', 'casefold', 'replace', 'split', 'rsplit', 'partition',
+                'rpartition', 'removeprefix', 'removesuffix', 'find', 'rfind', 'count', 'join', 'isspace'}
+_PURE_PATH_ATTRS = {'parents', 'parts', 'parent', 'name', 'anchor', 'root'}
+_PURE_PATH_METHODS = {'is_relative_to', 'as_posix', 'is_absolute'}
+
+
+def _pure_calls():
+    """Frozen table: stdlib callables that are pure functions of their (text)
+    arguments and may therefore be EXECUTED on the sample paths.  POSIX
+    flavours stand in for the os.path / pathlib aliases (assumption of C16)."""
+    import pathlib
+    import posixpath
+    import re as _re
+    pp = pathlib.PurePosixPath
+    return {
+        'builtins.len': len, 'builtins.bool': bool, 'builtins.str': str, 'builtins.tuple': tuple, 'builtins.list': list,
+        'builtins.any': any, 'builtins.all': all, 'builtins.min': min, 'builtins.max': max,
+        'os.path.normpath': posixpath.normpath, 'posixpath.normpath': posixpath.normpath,
+        'os.path.commonprefix': posixpath.commonprefix, 'posixpath.commonprefix': posixpath.commonprefix,
+        'os.path.commonpath': posixpath.commonpath, 'posixpath.commonpath': posixpath.commonpath,
+        'os.path.dirname': posixpath.dirname, 'posixpath.dirname': posixpath.dirname,
+        'os.path.join': posixpath.join, 'posixpath.join': posixpath.join,
+        'pathlib.PurePosixPath': pp, 'pathlib.PurePath': pp, 'pathlib.Path': pp, 'pathlib.PosixPath': pp,
+        're.sub': _re.sub, 're.match': _re.match, 're.fullmatch': _re.fullmatch, 're.search': _re.search, 're.escape': _re.escape,
+    }
+
+
+class _MatchEval:
+    """Concrete evaluation of StaticRoute.match() for one (self state, path).
+    Reads: if / return / assignments to locals; constants, locals,
+    `self.<attr>` of the given state, subscripts and slices, str methods of
+    _STR_METHODS, the callables of _pure_calls(), comparisons, and/or/not,
+    conditional expressions, tuples, `+`/`-`.  Anything else is UnknownIdiom."""
+
+    def __init__(self, p, f: Func, state: Dict[str, object]):
+        import pathlib
+        self.p, self.f, self.state = p, f, state
+        self.pure = _pure_calls()
+        self.pure_path = pathlib.PurePosixPath
+        self.self_name = f.params()[0]
+
+    def unknown(self, e, why='is outside the evaluator'):
+        return UnknownIdiom('%s: %s %s' % (self.f.qual, short(e, 90), why))
+
+    def run(self, path_param: str, value: str):
+        """-> (returned value, the ast.Return that produced it or None)."""
+        env = {path_param: value}
+        r = self.block(self.f.node.body, env)
+        return r if r is not None else (None, None)
+
+    def block(self, stmts, env):
+        for s in stmts:
+            if isinstance(s, ast.Expr) and isinstance(s.value, ast.Constant):
+                continue
+            if isinstance(s, ast.Pass):
+                continue
+            if isinstance(s, ast.Return):
+                return (self.ev(s.value, env) if s.value is not None else None, s)
+            if isinstance(s, ast.If):
+                r = self.block(s.body if self.ev(s.test, env) else s.orelse, env)
+                if r is not None:
+                    return r
+                continue
+            if isinstance(s, (ast.Assign, ast.AnnAssign)) and s.value is not None:
+                v = self.ev(s.value, env)
+                for t in (s.targets if isinstance(s, ast.Assign) else [s.target]):
+                    self.bind(t, v, env)
+                continue
+            raise self.unknown(s, 'is a statement the evaluator does not read')
+        return None
+
+    def bind(self, t, v, env):
+        if isinstance(t, ast.Name):
+            env[t.id] = v
+        elif isinstance(t, (ast.Tuple, ast.List)) and isinstance(v, (tuple, list)) and len(v) == len(t.elts):
+            for (x, y) in zip(t.elts, v):
+                self.bind(x, y, env)
+        else:
+            raise self.unknown(t, 'is an assignment target the evaluator does not read')
+
+    def ev(self, e, env):
+        if isinstance(e, ast.Constant):
+            return e.value
+        if isinstance(e, ast.Name):
+            if e.id in env:
+                return env[e.id]
+            raise self.unknown(e, 'is not a local of match()')
+        if isinstance(e, ast.Attribute):
+            if isinstance(e.value, ast.Name) and e.value.id == self.self_name:
+                if e.attr in self.state:
+                    return self.state[e.attr]
+                raise self.unknown(e, 'is neither a prefix-derived attribute nor the fallback file name')
+            v = self.ev(e.value, env)
+            if isinstance(v, self.pure_path) and e.attr in _PURE_PATH_ATTRS:
+                return getattr(v, e.attr)
+            raise self.unknown(e)
+        if isinstance(e, (ast.Tuple, ast.List)):
+            vals = [self.ev(x, env) for x in e.elts]
+            return tuple(vals) if isinstance(e, ast.Tuple) else vals
+        if isinstance(e, ast.Subscript):
+            v = self.ev(e.value, env)
+            s = e.slice
+            if isinstance(s, ast.Slice):
+                idx = slice(*[None if x is None else self.ev(x, env) for x in (s.lower, s.upper, s.step)])
+            else:
+                idx = self.ev(s, env)
+            return v[idx]
+        if isinstance(e, ast.BoolOp):
+            v = None
+            for x in e.values:
+                v = self.ev(x, env)
+                if bool(v) != isinstance(e.op, ast.And):
+                    return v
+            return v
+        if isinstance(e, ast.UnaryOp) and isinstance(e.op, ast.Not):
+            return not self.ev(e.operand, env)
+        if isinstance(e, ast.UnaryOp) and isinstance(e.op, ast.USub):
+            return -self.ev(e.operand, env)
+        if isinstance(e, ast.IfExp):
+            return self.ev(e.body if self.ev(e.test, env) else e.orelse, env)
+        if isinstance(e, ast.BinOp) and isinstance(e.op, (ast.Add, ast.Sub)):
+            a, b = self.ev(e.left, env), self.ev(e.right, env)
+            return a + b if isinstance(e.op, ast.Add) else a - b
+        if isinstance(e, ast.Compare):
+            left = self.ev(e.left, env)
+            for op, c in zip(e.ops, e.comparators):
+                right = self.ev(c, env)
+                if not self.cmp(op, left, right, e):
+                    return False
+                left = right
+            return True
+        if isinstance(e, ast.Call):
+            return self.call(e, env)
+        raise self.unknown(e)
+
+    def cmp(self, op, a, b, e):
+        if isinstance(op, ast.Eq):
+            return a == b
+        if isinstance(op, ast.NotEq):
+            return a != b
+        if isinstance(op, ast.In):
+            return a in b
+        if isinstance(op, ast.NotIn):
+            return a not in b
+        if isinstance(op, ast.Is):
+            return a is b
+        if isinstance(op, ast.IsNot):
+            return a is not b
+        if isinstance(op, ast.Lt):
+            return a < b
+        if isinstance(op, ast.LtE):
+            return a <= b
+        if isinstance(op, ast.Gt):
+            return a > b
+        if isinstance(op, ast.GtE):
+            return a >= b
+        raise self.unknown(e)
+
+    def call(self, c: ast.Call, env):
+        if any(isinstance(a, ast.Starred) for a in c.args) or any(k.arg is None for k in c.keywords):
+            raise self.unknown(c, 'uses star-arguments')
+        fn = c.func
+        q = self.p.resolve_expr(self.f.module, fn, self.f)
+        if q in self.pure:
+            args = [self.ev(a, env) for a in c.args]
+            kw = {k.arg: self.ev(k.value, env) for k in c.keywords}
+            return self.pure[q](*args, **kw)
+        if isinstance(fn, ast.Attribute) and q is None:
+            recv = self.ev(fn.value, env)
+            ok = (isinstance(recv, str) and fn.attr in _STR_METHODS) or (isinstance(recv, self.pure_path) and fn.attr in _PURE_PATH_METHODS)
+            if ok:
+                args = [self.ev(a, env) for a in c.args]
+                kw = {k.arg: self.ev(k.value, env) for k in c.keywords}
+                return getattr(recv, fn.attr)(*args, **kw)
+        raise self.unknown(c, 'is a call outside the frozen table of pure text functions')
+
+
+def _match_decides_on_raw_path(run, init: Func, match: Func, pparam: str, stored):
+    """match(path) == path.startswith(P) or (a fallback file is configured and
+    path == P[:-1]), with P the NORMALISED prefix - decided on the RAW request
+    path.  match() is executed abstractly (its text functions are pure) for both
+    registered spellings of a prefix x with/without fallback x a finite set of
+    raw paths, among them spellings that only a normalising reading (pathlib,
+    normpath, strip, case folding, collapsing of '//' or '/./') would put under
+    the prefix; every answer must agree with the string-prefix rule.
+    W: a route with a fallback claims GET /./static/a.txt or ///static/a.txt
+    (not under its prefix): the fallback file is served with 200 where an older
+    sink or a 404 should answer."""
+    p = run.project
+    base = 'falcon.routing.static.StaticRoute'
+    own = [q for q in sorted(p.subclasses(base)) if q != base and 'match' in p.classes[q].methods]
+    if own:
+        raise UnknownIdiom('%s overrides StaticRoute.match(); only the base implementation is evaluated' % own[0])
+    params = match.params()
+    a = match.node.args
+    if len(params) != 2 or a.vararg or a.kwarg or a.kwonlyargs:
+        raise UnknownIdiom('%s: signature %s (self, path expected)' % (match.qual, params))
+    path_param = params[1]
+    if not any(isinstance(n, ast.Attribute) and n.attr == MATCH_FALLBACK_ATTR and isinstance(n.ctx, ast.Store) for n in walk_self(init.node)):
+        raise AnchorError('StaticRoute.__init__ does not store self.%s' % MATCH_FALLBACK_ATTR)
+    for fallback in (None, '/srv/www/index.html'):
+        bad = []
+        n_eval = 0
+        for (raw, norm) in MATCH_PREFIXES:
+            state = {MATCH_FALLBACK_ATTR: fallback}
+            for attr, nodes in stored.items():
+                vals = set()
+                for (n, after) in nodes:
+                    ie = _MatchEval(p, init, {})
+                    try:
+                        vals.add(ie.ev(n.ast.value, {pparam: norm if after else raw}))
+                    except UnknownIdiom:
+                        raise
+                    except Exception as ex:  # the constructor itself would raise for this spelling
+                        raise UnknownIdiom('%s: evaluating %s raised %s' % (init.qual, short(n.ast.value), type(ex).__name__))
+                if len(vals) != 1:
+                    raise UnknownIdiom('%s: self.%s is bound to different values on different paths' % (init.qual, attr))
+                state[attr] = vals.pop()
+            me = _MatchEval(p, match, state)
+            for path in MATCH_PATHS:
+                want = path.startswith(norm) or (fallback is not None and path == norm[:-1])
+                try:
+                    got, ret = me.run(path_param, path)
+                except UnknownIdiom:
+                    raise
+                except Exception as ex:
+                    raise UnknownIdiom('%s: evaluating match(%r) raised %s: %s' % (match.qual, path, type(ex).__name__, ex))
+                n_eval += 1
+                if bool(got) != bool(want):
+                    bad.append((ret, 'add_static_route(%r, dir%s): match(%r) -> %r, the prefix rule says %r'
+                                % (raw, '' if fallback is None else ', fallback_filename=...', path, bool(got), bool(want))))
+        tag = 'with a fallback file' if fallback is not None else 'without a fallback file'
+        cons = bad[0][0] if bad and bad[0][0] is not None else 'match() %s' % tag
+        run.check(not bad, 'StaticRoute.match() %s claims exactly the raw request paths that start with the normalised prefix%s '
+                  '(decided on the path as received: no normalising reading of it)' % (tag, ' or equal it without the trailing slash' if fallback is not None else ''),
+                  match, cons, where=match.loc(bad[0][0]) if bad and bad[0][0] is not None else match.loc(),
+                  witness=[w for (_r, w) in bad[:8]] + (['... %d of %d evaluations disagree' % (len(bad), n_eval)] if len(bad) > 8 else []),
+                  runtime_witness='GET /./static/a.txt or ///static/a.txt is claimed by a static route whose prefix it does not start with: '
+                                  'the fallback file is served with 200 where an older sink or a 404 should answer')
 
 
 def check(run):
